@@ -29,6 +29,9 @@ type LogCase struct {
 	Limit   int64        `json:"limit"`
 	Forward bool         `json:"forward"`
 	Cluster bool         `json:"cluster,omitempty"`
+	// Flat lists the stages whose label filter is written without parentheses (mixed and/or
+	// chains as users type them); the tree in Q is the right-nested one qryn's grammar builds.
+	Flat []int `json:"flat,omitempty"`
 	// Shape names the pattern of a shaped pipeline (GenShapedStages); informational.
 	Shape string `json:"shape,omitempty"`
 }
@@ -41,10 +44,17 @@ func genLog(rt *rapid.T) LogCase {
 	} else {
 		c.Q.Matchers = GenMatchers(rt, &c.DB)
 	}
-	if Chance(rt, "shaped", 50) {
+	switch k := rapid.IntRange(0, 9).Draw(rt, "pipeline-kind"); {
+	case k < 2:
 		c.Q.Stages, c.Shape = GenShapedStages(rt, &c.DB)
-	} else {
-		c.Q.Stages = GenStages(rt, &c.DB, StageOpt{Max: 4})
+	case k == 2:
+		// filter on a label some selected streams lack: selector on a label (nearly) all carry
+		name := rapid.SampledFrom([]string{"app", "env"}).Draw(rt, "ab-sel")
+		c.Q.Matchers = []refeval.Matcher{{Name: name, Op: "=~", Val: ".+"}}
+		c.Q.Stages = GenAbsentLabelFilter(rt, &c.DB)
+		c.Shape = "absent-label-filter"
+	default:
+		c.Q.Stages, c.Flat = GenStagesFlat(rt, &c.DB, StageOpt{Max: 4})
 	}
 	c.Limit = rapid.SampledFrom([]int64{0, 1, 1, 2, 2, 3, 5, 8, 100, 1000}).Draw(rt, "limit")
 	c.Forward = rapid.Bool().Draw(rt, "forward")
@@ -130,6 +140,133 @@ func rowsKey(rows []refeval.Row) string {
 	}
 	sort.Strings(ks)
 	return strings.Join(ks, "\n")
+}
+
+// QueryText prints the query; the label filters of the stages listed in flat are printed
+// without parentheses (refeval.FlatFilterString).
+func QueryText(e *refeval.Expr, flat []int) string {
+	if len(flat) == 0 {
+		return e.String()
+	}
+	isFlat := map[int]bool{}
+	for _, i := range flat {
+		isFlat[i] = true
+	}
+	ms := make([]string, len(e.Matchers))
+	for i, m := range e.Matchers {
+		ms[i] = m.Name + m.Op + refeval.Quote(m.Val)
+	}
+	sel := "{" + strings.Join(ms, ", ") + "}"
+	for i, st := range e.Stages {
+		if isFlat[i] && st.Kind == refeval.KLabelFilter {
+			sel += " | " + refeval.FlatFilterString(st.Filter)
+		} else {
+			sel += " " + st.String()
+		}
+	}
+	return strings.Replace(e.String(), e.Selector(), sel, 1)
+}
+
+// tagFilters classifies the label filters of a case against its data: unparenthesised mixed
+// chains (and whether other groupings of the same text would answer differently on the
+// selected label sets), and filters on labels that some selected streams lack.
+func tagFilters(o *evid.Obs, c *LogCase) {
+	data := c.DB.Ref()
+	var selected []map[string]string
+	for _, s := range data {
+		if ok, err := refeval.MatchSeries(c.Q.Matchers, s.Labels, &refeval.Flags{}); err == nil && ok {
+			selected = append(selected, s.Labels)
+		}
+	}
+	isFlat := map[int]bool{}
+	for _, i := range c.Flat {
+		isFlat[i] = true
+	}
+	afterParser := false
+	for i, st := range c.Q.Stages {
+		if st.Kind == refeval.KJSON || st.Kind == refeval.KRegexp {
+			afterParser = true
+		}
+		if st.Kind != refeval.KLabelFilter {
+			continue
+		}
+		if isFlat[i] {
+			o.Tag("flat-chain")
+			if terms, ops, ok := refeval.ChainTerms(st.Filter); ok && len(terms) >= 3 {
+				logql := refeval.RegroupLogQL(terms, ops)
+				left := refeval.RegroupLeft(terms, ops)
+				dl, dq := false, false
+				for _, ls := range selected {
+					a, _ := refeval.EvalFilter(st.Filter, ls, &refeval.Flags{})
+					b, _ := refeval.EvalFilter(left, ls, &refeval.Flags{})
+					q, _ := refeval.EvalFilter(logql, ls, &refeval.Flags{})
+					dl = dl || a != b
+					dq = dq || a != q
+				}
+				if dl {
+					o.Tag("flat-chain-left-grouping-would-differ")
+				}
+				if dq {
+					// qryn's grammar is right-recursive without precedence; LogQL gives `and` precedence
+					o.Tag("deviation:flat-chain-grouping-differs-from-logql-precedence")
+				}
+			}
+		}
+		var walk func(f *refeval.LabelFilter)
+		walk = func(f *refeval.LabelFilter) {
+			if f.Bool != "" {
+				walk(f.L)
+				walk(f.R)
+				return
+			}
+			have, lack := 0, 0
+			for _, ls := range selected {
+				if _, ok := ls[f.Label]; ok {
+					have++
+				} else {
+					lack++
+				}
+			}
+			if lack == 0 || afterParserSets(c.Q.Stages[:i], f.Label) {
+				return
+			}
+			cls := "filter-on-label-some-selected-streams-lack"
+			if have == 0 {
+				cls = "filter-on-label-all-selected-streams-lack"
+			}
+			o.Tag(cls)
+			if ok, err := refeval.EvalFilter(f, map[string]string{}, &refeval.Flags{}); err == nil && ok {
+				if afterParser {
+					o.Tag(cls + ":satisfied-by-absence:after-parser")
+				} else {
+					o.Tag(cls + ":satisfied-by-absence:before-parser")
+				}
+				if f.Cmp == "=~" && have > 0 {
+					o.Tag("positive-regex-filter-matching-empty-on-partly-absent-label")
+				}
+			}
+		}
+		walk(st.Filter)
+	}
+}
+
+// afterParserSets: an earlier stage extracts into name (then the label is not "absent").
+func afterParserSets(stages []refeval.Stage, name string) bool {
+	for _, st := range stages {
+		switch st.Kind {
+		case refeval.KJSON:
+			for _, p := range st.Params {
+				if p.Name == name {
+					return true
+				}
+			}
+		case refeval.KRegexp:
+			if strings.Contains(st.Val, "(?P<"+name+">") {
+				return true
+			}
+		}
+	}
+	return false
 }
 
 // TagQuery classifies a query for the evidence histogram.
@@ -223,7 +360,7 @@ func predLog(c LogCase, o *evid.Obs) error {
 		o.Discard("invalid-db")
 		return nil
 	}
-	text := c.Q.String()
+	text := QueryText(&c.Q, c.Flat)
 	from, to := c.W.FromNs(), c.W.ToNs()
 	ref, err := refeval.EvalLogSQL(&c.Q, c.DB.Ref(), from, to, c.Forward)
 	if err != nil {
@@ -231,9 +368,12 @@ func predLog(c LogCase, o *evid.Obs) error {
 		return nil
 	}
 	TagQuery(o, &c.Q)
-	if c.Shape != "" {
+	if c.Shape == "absent-label-filter" {
+		o.Tag("shape:absent-label-filter")
+	} else if c.Shape != "" {
 		o.Tag("shape:filter-sep-rewrite", "shape:"+c.Shape)
 	}
+	tagFilters(o, &c)
 	if sel, _ := refeval.Select(c.DB.Ref(), c.Q.Matchers, from, to, &refeval.Flags{}); len(sel) == 0 {
 		o.Tag("selector-selects-nothing-in-window")
 	}
